@@ -196,6 +196,10 @@ class Rewriter(ast.NodeTransformer):
     def visit_FunctionDef(self, node):
         self._number(node)
         self.func_stack.append(node.name)
+        # names bound in this function (parameters and assignment targets): only those can be loop-carried locals
+        bound = set(a.arg for a in node.args.args + node.args.kwonlyargs + node.args.posonlyargs)
+        bound |= set(_names_assigned(node.body))
+        self.local_stack = getattr(self, "local_stack", []) + [bound]
         # R1
         node.returns = None
         for a in node.args.args + node.args.kwonlyargs + node.args.posonlyargs:
@@ -209,6 +213,7 @@ class Rewriter(ast.NodeTransformer):
             node.body = node.body[1:] or [ast.Pass()]
         self.generic_visit(node)
         self.func_stack.pop()
+        self.local_stack.pop()
         return node
 
     def visit_ClassDef(self, node):
@@ -315,8 +320,9 @@ class Rewriter(ast.NodeTransformer):
         if tnames is None:
             return node
         assigned = [n for n in _names_assigned(node.body) if n not in tnames and not n.startswith("__")]
+        bound = self.local_stack[-1] if getattr(self, "local_stack", None) else set()
         for n in _names_mutated(node.body):
-            if n not in assigned and n not in tnames and n != "self":
+            if n not in assigned and n not in tnames and n != "self" and n in bound:
                 assigned.append(n)
         attrs = _attr_assigned(node.body)
         it = "__it%d" % K
